@@ -43,7 +43,7 @@ def run(chk, sc):
             chk.machinery("no Motion behaviours for shape " + s)
             continue
         path = os.path.join(sc.dir, "motion_%s.json" % s)
-        json.dump(dict(nroots=SHAPES[s][0], nleaves=SHAPES[s][1], box=64, behaviours=behs), open(path, "w"))
+        json.dump(dict(nroots=SHAPES[s][0], nleaves=SHAPES[s][1], box=128, behaviours=behs), open(path, "w"))
         r = run_py(sc, ["-m", "harness.replay_motion", path], timeout=1800)
         if r.returncode != 0:
             chk.machinery("replay_motion crashed: " + r.stderr[-1500:])
